@@ -110,6 +110,9 @@ def tlc_phase(ctx, flags):
         ("neg_local_obj", "RecvPack_neg_local_obj.cfg", "NoDanglingRef"),
         ("neg_implied", "RecvPack_neg_implied.cfg", "ImpliedSuccess"),
         ("neg_local_race", "RecvPack_neg_local_race_q.cfg" if q else "RecvPack_neg_local_race.cfg", "AtomicOK"),
+        # defect model of a ref backend (CasMatch <- CasMatchZeroAny: the zero old id compared with nothing)
+        ("neg_backend_zero", "RecvPack_neg_backend_zero.cfg", "StatusExact"),
+        ("neg_backend_zero_race", "RecvPack_neg_backend_zero_race.cfg", "StatusExact"),
     ]
     if not q:
         jobs += [("mc_racelocal", "RecvPack_mc_racelocal.cfg", None), ("mc_precheck", "RecvPack_mc_precheck.cfg", None),
@@ -123,6 +126,7 @@ def tlc_phase(ctx, flags):
         ("local-seq", dict(inits="Inits012", pushin="LocalAll")),
         ("wire-race", dict(pushers="{1, 2}", inits="RaceInits", pushin=ctx.pick("RaceWireQ", "RaceWire"))),
         ("local-race", dict(pushers="{1, 2}", inits="RaceInits", pushin="RaceLocal")),
+        ("backend-seq", dict(inits=ctx.pick("Inits01", "Inits012"), pushin="BackendSeq")),
     ]
     for name, kw in emits:
         jobs.append(("emit_" + name, gen_cfg(ctx, "emit_" + name.replace("-", "_"), keep=True, emit=True, flags=flags, **kw), "EMIT"))
@@ -257,7 +261,10 @@ def random_case(rng):
         push.append(W(cmds, caps=caps, pack=pack, ok=(kind == "local" or rng.random() < 0.9), decl=decl,
                       pre=(kind == "wire" and rng.random() < 0.05), kind=kind))
     case = {"refs0": refs0, "store0": store0, "push": push, "layout": rng.choice(["loose", "packed"])}
-    return case, rng.random() < 0.3
+    stateless = rng.random() < 0.3
+    if rng.random() < 0.25:
+        case["layout"] = "reftable"
+    return case, stateless
 
 
 # --------------------------------------------------------------------------- traces for TLC
@@ -572,6 +579,21 @@ def run(ctx):
         replay_space(ctx, judge, f"wire-race-{layout}", behs["wire-race"], race=True,
                      opts={"maxp": ctx.pick(2, 3), "limit": ctx.pick(80, 600), "filter": contended,
                            "case_extra": {"layout": layout, "lockyield": True}})
+
+    # the other ref backends: every behaviour of BackendSeq / the local space and the racing behaviours on a contended
+    # ref (two creates of the same absent ref, create against delete, update against update ...) with the server
+    # repository on the reftable backend (extensions.refStorage), the sequential ones also with every ref packed-only.
+    # Scheduling grain for reftable: the ref operation (its compare and its write are not separated here).
+    def on_ref1(case):
+        p1, p2 = case["push"]
+        return any(c["r"] == 1 for c in p1["cmds"]) and (not ctx.quick or p2["cmds"][0]["old"] == case["refs0"][0])
+    for layout in ("reftable", "packed"):
+        replay_space(ctx, judge, f"backend-seq-{layout}", behs["backend-seq"], opts={"case_extra": {"layout": layout}})
+    replay_space(ctx, judge, "local-seq-reftable", behs["local-seq"], opts={"case_extra": {"layout": "reftable"}})
+    replay_space(ctx, judge, "wire-race-reftable", behs["wire-race"], race=True,
+                 opts={"maxp": ctx.pick(2, 3), "limit": ctx.pick(60, 600), "filter": on_ref1, "case_extra": {"layout": "reftable"}})
+    replay_space(ctx, judge, "local-race-reftable", behs["local-race"], race=True,
+                 opts={"maxp": ctx.pick(2, 3), "limit": ctx.pick(60, 600), "filter": on_ref1, "case_extra": {"layout": "reftable"}})
 
     # S: three real pushes (two receive-pack handlers and a local push) on the same two refs, every schedule with a
     # bounded number of preemptions at ref-operation grain; judged by the monitor only
